@@ -38,6 +38,12 @@ GROUPS = [
     # two libraries that share a standard partner, merged under one prefix, in both orders
     (["8.2.0", "mm:score_1.1.0", "mm:testlib_2.0.0"], [("mm:", "testlib_2.0.0"), ("mm:", "score_1.1.0"), ("", "8.2.0")]),
     (["mm:testlib_2.0.0", "mm:score_1.1.0"], [("mm:", "testlib_2.0.0"), ("mm:", "score_1.1.0")]),
+    # the same groups in the other documented spellings: the libraries of one prefix in one comma-separated element,
+    # and the whole list as a JSON string
+    (["8.2.0", "mm:score_1.1.0,testlib_2.0.0"], [("mm:", "testlib_2.0.0"), ("mm:", "score_1.1.0"), ("", "8.2.0")]),
+    (["mm:testlib_2.0.0,score_1.1.0"], [("mm:", "testlib_2.0.0"), ("mm:", "score_1.1.0")]),
+    ('["8.3.0", "sc:score_2.0.0"]', [("", "8.3.0"), ("sc:", "score_2.0.0")]),
+    ('["8.2.0", "mm:testlib_2.0.0,score_1.1.0"]', [("mm:", "score_1.1.0"), ("", "8.2.0")]),
 ]
 MERGED = [["score_1.1.0", "testlib_2.0.0"], ["testlib_2.0.0", "score_1.1.0"]]
 TREE_KINDS = ["unknown-tag", "extension-forbidden", "requires-child", "bad-unit", "bad-value", "repeated-tag",
@@ -136,7 +142,8 @@ def run_relational(shard, rec):
     o = schema_xml.load(shard["member"])
     gen = annot.AnnotGen(o, rng)
     versions, _ = GROUPS[shard["group"]]
-    loaded = {(v.split(":")[0] + ":") if ":" in v else "" for v in versions}
+    vlist = __import__("json").loads(versions) if isinstance(versions, str) else versions
+    loaded = {(v.split(":")[0] + ":") if ":" in v else "" for v in vlist}
     defs = pdefs = []
     for i in range(shard["n"]):
         if i % 10 == 0:
@@ -181,9 +188,13 @@ def run_relational(shard, rec):
             rec.sample(case)
         if i % 4 == 0:
             # prefixes that are not loaded - among them the empty one when every member of the group has a prefix
-            bad = rng.choice(["zz:", "q:", "s1:", "s-c:", "a_b:", "9:"] + ([""] * 3 if "" not in loaded else []))
+            # ... and a loaded prefix in another letter case (prefixes are case-sensitive)
+            recased = [x for p0 in loaded if p0 for x in (p0.upper(), p0.lower(), p0.swapcase()) if x not in loaded]
+            bad = rng.choice(["zz:", "q:", "s1:", "s-c:", "a_b:", "9:"] + ([""] * 3 if "" not in loaded else []) + recased * 2)
             if bad in loaded:
                 continue
+            if bad in recased:
+                rec.count("bad-prefix-kind", "loaded-prefix-in-another-case")
             one = annot.render(items[:1], None, bad) if rng.random() < 0.5 else _with_ns(items, bad)
             rec.case((shard["group"], "bad", one))
             check_bad_prefix(dict(kind="bad-prefix", group=shard["group"], text=one), rec)
@@ -438,3 +449,9 @@ def replay(case, rec):
             rec.violation("the verdict depends on whether the prefixed group or the member alone was loaded and used first", case)
     else:
         expect_load(rec, case["what"], case["versions"], case["should_load"])
+
+
+def finalize(merged, tier, inconclusive):
+    got = merged.hist.get("bad-prefix-kind", {}).get("loaded-prefix-in-another-case", 0)
+    if got < 50:
+        inconclusive.append(f"annotations carrying a loaded prefix in another letter case: {got} (< 50)")
